@@ -214,13 +214,124 @@ def run_rw(job, res, tier):
 
 
 def jobs(tier, seed):
-    return [('rw', j[1], j[2]) for j in c04.jobs(tier, seed)]
+    out = [('rw', j[1], j[2]) for j in c04.jobs(tier, seed)]
+    # MMX / SSE part (instructions lifted through the uninterpreted 'MMX' operator): operand inclusion
+    for ps in ((), (0x66,), (0xF2,), (0xF3,)):
+        for ej in E.make_jobs(tier, seed, prefix_sets=[ps], sib='one' if tier == 'quick' else 'min', per_signature=False):
+            if E._row_is_mmx(ej[1], ej[2]):
+                out.append(('sse', ej, tier))
+    return out
+
+
+FLAG_WRITERS = ('comis#s#', 'ucomis#s#', '#p#test')      # write zf, pf, cf (and clear of, nf, af): SDM vol. 2
+
+
+def sse_sets(i, affs):
+    R, W = set(), set()
+    for a in affs:
+        R |= set(a.get_r(mem_read=True))
+        W |= set(a.get_w())
+        if isinstance(a.dst, X.ExprMem):
+            R |= set(a.dst.arg.get_r(mem_read=True))
+    return R, W
+
+
+def sse_missing(i, affs):
+    """operand-inclusion obligations of an MMX/SSE instruction 'op dst, src[, imm]': the source operand (and every register its
+    address is computed from) is read, the address registers of a memory destination are read, the destination is written,
+    the compare instructions write zf/pf/cf.  Returns [(key, description)] of the omissions."""
+    out = []
+    R, W = sse_sets(i, affs)
+    rn = set(x.name for x in R if isinstance(x, X.ExprId))
+    wn = set(x.name for x in W if isinstance(x, X.ExprId))
+    args = i.arg_expr
+    if len(args) < 2:
+        return out
+    dst, src = args[0], args[1]
+
+    def ids_of(e):
+        return set(x.name for x in e.get_r(mem_read=True) if isinstance(x, X.ExprId))
+    if isinstance(src, X.ExprMem):
+        if src not in R:
+            out.append(('sse-omitted-read:source-memory', 'the memory source operand %s is not in the read set' % src))
+        for n in ids_of(src.arg) - rn:
+            out.append(('sse-omitted-read:address-register', 'register %s of the source address is not in the read set' % n))
+    elif isinstance(src, (X.ExprId, X.ExprSlice)):
+        for n in ids_of(src) - rn:
+            out.append(('sse-omitted-read:source-register', 'source register %s is not in the read set' % n))
+    if isinstance(dst, X.ExprMem):
+        for n in ids_of(dst.arg) - rn:
+            out.append(('sse-omitted-read:address-register', 'register %s of the destination address is not in the read set' % n))
+        if i.m.name not in FLAG_WRITERS and dst not in W:
+            out.append(('sse-omitted-write:destination-memory', 'the memory destination %s is not in the write set' % dst))
+    elif isinstance(dst, (X.ExprId, X.ExprSlice)) and i.m.name not in FLAG_WRITERS:
+        for n in ids_of(dst) - wn:
+            out.append(('sse-omitted-write:destination-register', 'destination register %s is not in the write set' % n))
+    if i.m.name in FLAG_WRITERS:
+        for f in ('zf', 'pf', 'cf'):
+            if f not in wn:
+                out.append(('sse-omitted-write:%s' % f, 'flag %s is written by the processor but is not in the write set' % f))
+    return out
+
+
+def run_sse(job, res, tier):
+    from vf.checks import c11
+    ejob = job[1]
+    prefixes, opc, last, sibmode, rowname = ejob
+    title = 'sse rw %s|%s%s %s' % (' '.join('%02x' % p for p in prefixes), ' '.join('%02x' % b for b in opc), '' if last is None else ' {%02x..}' % last[0], rowname)
+    seen = set()
+
+    def on_path(eng, d):
+        if d.kind != 'ok':
+            return ('SKIP',)
+        i = d.instr
+        if '#' not in i.m.name or i.m.name in SEM.mnemo_func:
+            return ('SKIP',)
+        c11.reset_singletons()
+        try:
+            affs = EH.get_instr_expr(i, X.ExprInt(M.uint32(i.l)), [])
+        except PathAbort:
+            raise
+        except Exception:
+            return ('SKIP',)           # C11's subject
+        miss = sse_missing(i, affs)
+        if miss:
+            return ('BAD', i.m.name, miss, E.witness_bytes(eng, d)[:i.l])
+        return ('OK',)
+    eng, rs = E.explore(ejob, on_path, max_paths=20000, max_seconds=300)
+    res['paths'] += eng.stats['paths']
+    res['queries'] += eng.stats['queries']
+    res['solver_s'] += eng.stats['solver_s']
+    for u in eng.unexplored:
+        res['inconclusive'].append('%s: %s' % (title, u))
+    ok = 0
+    for r in rs:
+        if r[0] == 'OK':
+            ok += 1
+            res['obligations'] += 1
+            res['proved'] += 1
+        elif r[0] == 'BAD':
+            res['obligations'] += 1
+            for key, desc in r[2]:
+                k = '%s:%s' % (key, r[1])
+                if k in seen:
+                    continue
+                seen.add(k)
+                res['candidates'].append({'key': k, 'desc': '%s: %s e.g. %s' % (r[1], desc, ' '.join('%02x' % b for b in r[3])),
+                                          'data': {'bytes': list(r[3]), 'what': key, 'sse': True}})
+    if ok:
+        res['nontrivial'] += 1
+        if len(res['samples']) < 1:
+            res['samples'].append({'row': title, 'paths': len(rs), 'verdict': 'source operands / address registers read and destinations written on %d path(s)' % ok})
 
 
 def run_job(job):
     res = {'paths': 0, 'queries': 0, 'solver_s': 0.0, 'obligations': 0, 'proved': 0, 'candidates': [],
            'inconclusive': [], 'samples': [], 'programs': 1, 'nontrivial': 0}
-    run_rw(job, res, job[2])
+    if job[0] == 'sse':
+        run_sse(job, res, job[2])
+    else:
+        run_rw(job, res, job[2])
     return res
 
 
@@ -326,7 +437,30 @@ sys.exit(1 if bad else 0)
 '''
 
 
+REPLAY_SSE = r'''
+# replay of a C08 counterexample, MMX/SSE part: the real read/write sets of the lifted instruction vs the operands the
+# decoder names (exit 1 = a source operand / address register is not read, or the destination / a compare's flags not written)
+import sys
+from miasmx.arch.ia32_arch import x86mnemo
+import miasmx.arch.ia32_sem as SEM, miasmx.tools.emul_helper as EH, miasmx.expression.expression as X, miasmx.tools.modint as M
+from vf.checks import c08
+c08.X = X; c08.SEM = SEM
+D = %(data)r
+i = x86mnemo.dis(bytes(D['bytes']) + b'\x90' * 4)
+affs = EH.get_instr_expr(i, X.ExprInt(M.uint32(i.l)), [])
+R, W = c08.sse_sets(i, affs)
+print(bytes(D['bytes']).hex(), str(i).strip()); print('  read set :', sorted(str(x) for x in R)); print('  write set:', sorted(str(x) for x in W))
+miss = c08.sse_missing(i, affs)
+for k, d in miss: print('  ', k, ':', d)
+bad = any(k == D['what'] for k, d in miss)
+print('C08 replay:', 'VIOLATED' if bad else 'holds')
+sys.exit(1 if bad else 0)
+'''
+
+
 def make_replay(cnd):
+    if cnd['data'].get('sse'):
+        return REPLAY_SSE % {'data': cnd['data']}
     return REPLAY % {'data': cnd['data']}
 
 
@@ -342,7 +476,7 @@ def main(argv=None):
     cov['exhaustive'] = False
     cov['rule'] = 'a program = one (prefix set, opcode row) of the integer core; non-trivial = at least one path on which no dependency is missing'
     cov['functions_encoded'] = ['expression.expression:get_r/get_w of every node class (on the real lifted lists)', 'arch.ia32_sem semantic functions of the integer core', 'tools.emul_helper:get_instr_expr']
-    cov['bounds'] = ('integer core only (x87/MMX/SSE table-inclusion part of the property NOT built); rows/prefix sets as C04; segment registers excluded (flat model); '
+    cov['bounds'] = ('integer core by dependency queries; MMX/SSE instructions lifted through the uninterpreted MMX operator by operand inclusion (source operand, address registers, destination; zf/pf/cf for comis/ucomis/ptest), prefix sets (), 66, f2, f3; x87 NOT covered; rows/prefix sets of the core as C04; segment registers excluded (flat model); '
                      'a memory access counts as covered when an ExprMem of the set has a provably equal address and at least its size')
     if cov['proved'] == 0:
         herr.append('vacuous: nothing proved')
